@@ -358,20 +358,30 @@ macro_rules! impl_tryfrom_integer {
                             if matches!(e, lexical_core::Error::InvalidDigit(_)) {
                                 let value = lexical_core::parse::<$intermediate>(value)?;
 
-                                if !value.is_normal() {
+                                // Values this large have no fractional part left to round
+                                const INTEGRAL: $intermediate =
+                                    (1u64 << (<$intermediate>::MANTISSA_DIGITS - 1)) as $intermediate;
+                                // First value above the range, exactly representable unlike MAX
+                                const UPPER: $intermediate =
+                                    ((<$from>::MAX / 2 + 1) as $intermediate) * 2.0;
+                                const LOWER: $intermediate = <$from>::MIN as $intermediate;
+
+                                // <f32|f64>::round() doesn't exist in no_std...
+                                let rounded = if value >= INTEGRAL || value <= -INTEGRAL {
+                                    value
+                                } else if value.is_sign_positive() {
+                                    value + 0.5
+                                } else {
+                                    value - 0.5
+                                };
+
+                                if rounded.is_nan() || rounded >= UPPER {
                                     Err(lexical_core::Error::Overflow(0).into())
-                                } else if value > (<$from>::MAX as $intermediate) {
-                                    Err(lexical_core::Error::Overflow(0).into())
-                                } else if value < (<$from>::MIN as $intermediate) {
+                                } else if rounded - LOWER <= -1.0 {
                                     Err(lexical_core::Error::Underflow(0).into())
                                 } else {
-                                    // <f32|f64>::round() doesn't exist in no_std...
-                                    // Safe because value is checked to be normal and within bounds earlier
-                                    if value.is_sign_positive() {
-                                        Ok(unsafe { (value + 0.5).to_int_unchecked() })
-                                    } else {
-                                        Ok(unsafe { (value - 0.5).to_int_unchecked() })
-                                    }
+                                    // Truncates towards zero, in range as checked above
+                                    Ok(rounded as $from)
                                 }
                             } else {
                                 Err(e)
